@@ -18,7 +18,8 @@ CHECKS = {
              "formula is a violation. The real CertificateAuth / AccessControl / RateLimiter refusing hostile request lines "
              "(percent-encoded CR/LF, NUL, long paths) are run through the real protocol and judged the same way; routing "
              "configurations ([[locations]] with and without catch-all) are decided by Router.tla replayed through the real "
-             "start_server; the PyOpenSSL layer's close (close_notify then TCP close) by the TlsPump replay.",
+             "start_server; the PyOpenSSL layer's close (close_notify then TCP close) by the TlsPump replay."
+             " Logging faults: the k-th call into the protocol's logger raises, for every k of random executions - at most one well-formed, untorn response may reach the client (checks/logfault.py).",
         note="Trusted: TLC; the fake transport's fidelity to asyncio's transport contract; scripted handler/middleware "
              "behaviour classes. The stdlib-TLS backend is covered by live-socket checks of C06/C15, not here."),
     "C04": dict(
@@ -30,14 +31,16 @@ CHECKS = {
              "Chain.tla composes the real components as start_server assembles them (certificate rules -> address policy -> "
              "rate limiter -> handler): FirstRefusalWins, RefusedDoNotConsume, ServedOnlyIfAllAdmit model-checked and sampled "
              "behaviours replayed against the protocol factory captured from the real start_server over real TLS sessions in "
-             "memory, with look-alike certificates and changing peer addresses.",
+             "memory, with look-alike certificates and changing peer addresses."
+             " The peer identity (none / certificate / look-alike with another key, three addresses) rotates from one connection to the next while the request bytes of a configuration stay identical (state shared across connections shows); RefusalNotPreempted: the request timer never pre-empts a slow component's refusal.",
         note="Trusted: as C01. The real RateLimiter/AccessControl/CertificateAuth components are bound by C05/C09/C10."),
     "C07": dict(
         engine="ServerConn", design="8 C07, 5.1",
         text="SegIndep (outcome = function of the whole stream, defined without cut points) and AtMostOnce model-checked over "
              "all segmentations at the cut points of 14 stream shapes (Gemini/Titan, boundary lengths 1022..1025, trailing "
              "bytes, late content), replayed transition by transition on the real protocol; random cut sets beyond the model "
-             "validated by TLC.",
+             "validated by TLC."
+             " C07 is relational: every non-conforming execution is re-run with the same bytes at the same instants under other segmentations and must end the same; request lines are IRIs half of the time so that cut points fall inside multi-byte characters and escapes.",
         note="Trusted: as C01. The ciphertext level (TCP reads cutting TLS records, application data coalesced with the end of "
              "the handshake) is decided by the TlsPump replay, run in the same check with PlainInOrder / PlainComplete."),
     "C15": dict(
@@ -56,7 +59,8 @@ CHECKS = {
              "idle-eviction age; behaviours sampled by tlc -simulate are executed on the real RateLimiter under a virtual clock "
              "with its own clean-up task running (decision, 44 text and every address's level compared); long random runs with "
              "gathered concurrent calls are validated by TLC against the trace spec; non-conforming runs are judged by the "
-             "observation spec.",
+             "observation spec."
+             " The command line front end is decided by Assembly.tla (RateAsConfigured): cases of `nauyaca serve` with a TOML file, CLI options and NAUYACA_* variables run through the real command with start_server recorded.",
         note="Trusted: TLC; exactness of float arithmetic on the dyadic grid used; the virtual clock patch of time.monotonic."),
     "C09": dict(
         engine="Acl", design="8 C09, 5.3, Appendix L",
@@ -64,7 +68,8 @@ CHECKS = {
              "absent/empty/present, default on/off; thorough: two entries per list) and checks AsConfigured; each case is "
              "embedded at several bit offsets into real IPv4/IPv6 addresses and decided by the real AccessControl and by "
              "ServerConfig.from_toml -> get_access_control_config (thorough: also the chain the real start_server assembles, "
-             "behind the real protocol); random policies with up to 4 entries per list are judged by TLC against Admit.",
+             "behind the real protocol); random policies with up to 4 entries per list are judged by TLC against Admit."
+             " One long-lived AccessControl and one start_server-assembled chain decide every address of a policy twice, in shuffled order, with IPv6 embeddings beyond /64; Assembly.tla (AclAsConfigured) binds the `nauyaca serve` front end.",
         note="Trusted: TLC; the embedding arithmetic of checks/c09.py (model bits -> real address bits); allow_list=[] is "
              "left undecided (grey)."),
     "C02": dict(
@@ -75,7 +80,8 @@ CHECKS = {
              "encoded names x trailing slash, and checks Safe and Reachable; every case is materialised on disk and served by the "
              "real StaticFileHandler, the served node being identified by sentinel search, and compared with the model; random "
              "byte-level spellings (backslash, NUL, control bytes, long names, double encoding) are judged by sentinel; "
-             "disagreements are judged by the observation spec.",
+             "disagreements are judged by the observation spec."
+             " Requests with a tree change in flight: after the k-th pathlib call of a request a link is atomically re-pointed outside the root, for every k.",
         note="Trusted: TLC; sentinel-based identification of what was served; the POSIX file system of the sandbox. Newline "
              "translation of read_text (CRLF files are served with LF) is outside the property as stated and not judged."),
     "C05": dict(
@@ -89,7 +95,8 @@ CHECKS = {
              "is identified by sentinel and disagreements judged by the observation spec on the delivered file's own location; "
              "sequences of TLS connections with different / no certificates against the chain assembled by the real "
              "start_server (Chain.tla) decide that each connection is judged on its own certificate. "
-             "Thorough: real TLS on the PyOpenSSL backend in memory with RSA/EC/Ed25519 client certificates.",
+             "Thorough: real TLS on the PyOpenSSL backend in memory with RSA/EC/Ed25519 client certificates."
+             " Assembly.tla (CertRulesAsConfigured, FlagNeverIgnored) binds the `nauyaca serve` front end: the file's rules reach start_server whatever CLI / ENV overrides are present.",
         note="Trusted: TLC; sentinel identification; capsule without symlinks (C02 covers links)."),
     "C13": dict(
         engine="ClientConn", design="8 C13, 5.6, Appendix D",
@@ -100,14 +107,16 @@ CHECKS = {
              "points x fin/rst/never; every transition is executed on the real GeminiClient._get_single / upload in virtual time "
              "with a fake transport and a real SQLite pin store; every returned response is checked byte for byte against the "
              "bytes after the first CRLF; random grammar streams (every codec label Python knows plus unknown ones) are judged by "
-             "the byte-level oracle.",
+             "the byte-level oracle."
+             " Random classified streams (400 / 2 000) and pairs of overlapping calls on one client object (150 / 600) are recorded and validated by TLC against ClientConnTrace.",
         note="Trusted: TLC; fake transport contract; the byte-level oracle of checks/clientconn.py (expected_body)."),
     "C11": dict(
         engine="ClientConn", design="8 C11, 5.6, Appendix D",
         text="NothingBeforeVerify and ChangedGetsNothing model-checked on ClientConn (pinned / first use / changed / unreadable / "
              "TOFU off x get with query / upload with token and content) and every transition replayed on the real client: the "
              "observable is the bytes that have left the client on the transport at each step, so a request written before the pin "
-             "check (or with verify_ssl=True) is seen; the request that does leave is compared byte for byte.",
+             "check (or with verify_ssl=True) is seen; the request that does leave is compared byte for byte."
+             " Histories include CallRacing (another handle of the pin store pins the host while the connection is being made), CallStoreFault (the k-th SQL statement of the call fails) and look-alike certificates (same name and serial, other key).",
         note="Trusted: as C13. Multi-call histories on one client object (redirect hops, caches across calls) are covered by the "
              "Tofu history check (C03)."),
     "C03": dict(
@@ -120,7 +129,8 @@ CHECKS = {
              "executed on ONE real GeminiClient with a real SQLite pin store against scripted peers; after each step the "
              "known_hosts table, the result / exception (both fingerprints in the message, no content) and the bytes every peer "
              "received are compared; 80 (400) random histories of up to 40 operations generated by the driver are recorded and "
-             "validated by TLC against TofuTrace (conformance of every step, every invariant at every step).",
+             "validated by TLC against TofuTrace (conformance of every step, every invariant at every step)."
+             " Further history actions: CallRacing, CallStoreFault(k), ContextCycle (client reused after its async-with block); the two readable certificates are look-alikes (same subject / issuer and serial number).",
         note="Trusted: TLC; scripted peers supply the DER through ssl_object.getpeercert; a DER blob the X.509 parser rejects "
              "stands for certificates OpenSSL would accept but cryptography cannot read."),
     "C12": dict(
@@ -129,7 +139,8 @@ CHECKS = {
              "Crash enabled at every boundary) is model-checked for Atomic, SingleCommitPoint, DoneIsAfter, FailureRaises, "
              "OthersUntouched; every (store, operation) TLC enumerates is then executed on the real TOFUDatabase with a fault at "
              "every statement boundary (injected sqlite3/OSError; real process kill by fork + _exit), the file reopened, and "
-             "the outcome judged by TLC against After(before, op); export->import round trips for generated host names.",
+             "the outcome judged by TLC against After(before, op); export->import round trips for generated host names."
+             " A third of the operations go through the `nauyaca tofu` command line (typer runner, $HOME store) under the same statement-boundary faults and process kills; revoke-by-host-name is an operation of its own; the two host names differ only where SQL LIKE has a wildcard.",
         note="Trusted: TLC; SQLite's durability; boundaries = Cursor.execute / Connection.commit entries.",
         technique="TLA+ spec + TLC model checking; fault enumeration at every SQL statement boundary on the real store, judged by a TLC observation spec"),
     "C16": dict(
@@ -141,7 +152,8 @@ CHECKS = {
              "lines peers received, pin row per contacted host); random graphs over 7 URLs on 3 hosts (URLs differing only in "
              "query / port / trailing slash) with max_redirects 0..6; pairs of overlapping fetches on one client object, each "
              "judged by its own reference walk; the pin check of every hop under rotations and across calls "
-             "is decided by the Tofu history replay run with C16's formulas.",
+             "is decided by the Tofu history replay run with C16's formulas."
+             " Every URL has one spelling per run (canonical or not: explicit default port, empty path, empty query, upper-case host), used by the caller and every redirecting server.",
         note="Trusted: TLC; scripted peers; URLs are opaque strings in the model."),
     "C06": dict(
         engine="TlsPump", design="8 C06, 5.2, Appendix H",
@@ -153,7 +165,8 @@ CHECKS = {
              "records (max_fragment_length); live: the servers the real start_server builds on both backends serving a 24 MiB "
              "file to a reader that idles after the header; live servers on both backends (stdlib ssl and "
              "PyOpenSSL) started by the real start_server, bodies sampled densely around 2^14 / 2^16 up to several MB, str and "
-             "bytes bodies, static files, slow and bursty readers, byte-identical streams on both backends.",
+             "bytes bodies, static files, slow and bursty readers, byte-identical streams on both backends."
+             " Logging faults (every call into the protocol's logger, for every k) must not add anything after a complete response; the idle reader pauses 7 s (14 s thorough).",
         note="Trusted: TLC; the stdlib ssl client as TLS peer; byte comparison is the driver's oracle (the model knows lengths and "
              "order, not byte values)."),
     "C20": dict(
@@ -165,7 +178,8 @@ CHECKS = {
              "(security level 0 on the peer and, applied by the harness, on the context under test, so that only the "
              "implementation's own minimum version can refuse); control peers prove TLS 1.0/1.1 negotiable on both OpenSSL "
              "builds; the plaintext path of the PyOpenSSL pump is additionally decided by the TlsPump replay "
-             "(InnerOnlyAfterHandshake, NoPlainBeforeTls).",
+             "(InnerOnlyAfterHandshake, NoPlainBeforeTls)."
+             " OnlyTlsOnWire: every byte the PyOpenSSL layer puts on the TCP connection parses as TLS records (also when the handshake timer fires); certificate / key files that cannot be loaded (mismatched pair, garbage) must prevent start-up or at least never yield a listener without TLS.",
         note="The model is thin (one negotiation rule per construction path); the assurance is the exhaustive configuration "
              "replay. SSLv3 cannot be offered in this sandbox (absent from both OpenSSL builds)."),
     "C14": dict(
@@ -176,7 +190,8 @@ CHECKS = {
              "after the declared size) into the real FileUploadHandler on a materialised tree, storage faults being produced by "
              "the OS in a forked child (RLIMIT_FSIZE = disk full after k bytes, uid 65534 = permission error); a recursive "
              "before/after snapshot of the upload directory and its surroundings is projected onto the model's change record "
-             "and judged by TLC (formulas on the observation + agreement with Handle).",
+             "and judged by TLC (formulas on the observation + agreement with Handle)."
+             " Handlers are built directly or through ServerConfig / TOML get_upload_handler() with token lists containing blank entries; pairs of simultaneous uploads to one path (worker threads lined up write-write-rename-rename if the handler uses them).",
         note="Trusted: TLC; POSIX semantics of the sandbox file system; directories created for an upload are not counted as files.",
         technique="TLA+ spec + TLC model checking; OS-level storage-fault enumeration on the real handler, judged by a TLC observation spec"),
     "C17": dict(
@@ -187,7 +202,8 @@ CHECKS = {
              "routable cases go through the real Router (PREFIX route) -> real ProxyHandler -> real GeminiClient whose connection "
              "is served by a recording peer: the (host, port) connected to and the request line received are compared with the "
              "upstream authority and base + Map + query for six upstream forms (port, base path, trailing slash, IPv6 literal) and "
-             "hostile token spellings (@evil, :8080, ;p=1, %2f, .., //).",
+             "hostile token spellings (@evil, :8080, ;p=1, %2f, .., //)."
+             " Half of the cases use the router built by ServerConfig.from_toml(...).get_location_router() with a sibling proxy location for the same upstream and a second request arriving in the same loop iteration; upstreams include a mixed-case base path.",
         note="Trusted: TLC; the recording peer. An empty segment directly after a trailing-slash prefix (/api//x under /api/) is "
              "left undecided (grey)."),
     "C18": dict(
@@ -200,7 +216,8 @@ CHECKS = {
              "downstream bytes must be the upstream's header and body verbatim or a 43 within the location timeout, with one "
              "upstream connection; random re-segmentation of the upstream stream must not change the relayed bytes; location "
              "timeouts below and above the server's own 30 s request timeout, and two locations sharing an upstream with "
-             "different timeouts, must each answer 43 exactly at their own timeout.",
+             "different timeouts, must each answer 43 exactly at their own timeout."
+             " Garbage headers with bare CR / LF in the quoted token; a live relay (real start_server with a proxy location in front of a real server) of 9 MiB to a reader that idles 7 s (14 s thorough) on both backends.",
         note="Trusted: TLC; scripted upstream transports. A FIN in the middle of a body is indistinguishable from its end and is "
              "relayed as sent (left undecided, as in DESIGN.md)."),
     "C08": dict(
@@ -211,7 +228,8 @@ CHECKS = {
              "sent over the wire path of the real server protocol with spy handler, spy middleware and spy upload handler, and "
              "what was observed is judged by TLC (UrlObs: AcceptOK with host/port/path/query intact, RejectOK = 59, Refuse50, "
              "CalledOnlyIfAcceptable); unconstrained byte strings are checked for the implication only. Wire state machine: the "
-             "ServerConn model check + edge replay run with C08's formulas (OnlyValidReachHandler, SegIndep, Progress).",
+             "ServerConn model check + edge replay run with C08's formulas (OnlyValidReachHandler, SegIndep, Progress)."
+             " TlsPump's PlainComplete / PlainInOrder (a request written as several TLS records, coalesced with the end of the handshake) are part of this check; oversized lines are built so that the remainder after a cut point is itself a well-formed request line.",
         note="Grey (checked only for 'called => not must-reject'): upper-case scheme, empty user-info, empty fragment, raw control "
              "characters and spaces inside the line (urlparse strips or keeps them)."),
     "C19": dict(
@@ -219,7 +237,8 @@ CHECKS = {
         text="The Url grammar model (Norm on component kinds: Idempotent, MeaningPreserved, NormalizedWellformed checked by TLC on "
              "705 600 URLs) is the case generator and oracle: thousands of sampled URLs go through parse_url / normalize_url / "
              "validate_url and a GeminiClientProtocol -> server-protocol round trip; idempotence, same host/port/path/query, "
-             "acceptance of the normal form and the components the server parses are judged by TLC (UrlObs).",
+             "acceptance of the normal form and the components the server parses are judged by TLC (UrlObs)."
+             " The request line of the wire clause is what the real GeminiClient._get_single sends for the caller's spelling.",
         note="No temporal content (stated in DESIGN.md): the specification contributes the systematic product and the expected "
              "components. One known finding: empty path at exactly the length limit.",
         technique="TLA+ grammar model enumerated by TLC as case generator and oracle; library and wire round trip judged by a TLC observation spec"),
